@@ -591,6 +591,19 @@ pub fn gen_c08(r: &mut Rng, id: usize, thorough: bool) -> Group {
     }
     let p = PipeOpts { force_limit: true, text: false, ..Default::default() };
     let mut g = gen_pipeline(r, id, "C08", &p, &key_universe_small(), 40);
+    // option values at the edge of u64: S + T must not wrap or trap (rows S.. of a short result are no rows)
+    if r.below(16) == 0 {
+        let edge = [u64::MAX, u64::MAX - 1, 1u64 << 63, 1u64 << 32, u64::MAX - 3];
+        if r.below(3) != 0 {
+            g.cases[0].spec.skip = edge[r.below(edge.len())];
+        }
+        if r.below(3) == 0 {
+            g.cases[0].spec.take = Some(edge[r.below(edge.len())]);
+        } else if g.cases[0].spec.take.is_none() {
+            g.cases[0].spec.take = Some(1 + r.below(4) as u64);
+        }
+        g.labels.push("kind:edge-u64".into());
+    }
     // metamorphic twin: the same run without --skip/--take
     let mut twin = g.cases[0].clone();
     twin.id = format!("{}-unlimited", twin.id);
@@ -1203,6 +1216,30 @@ pub fn gen_c16(r: &mut Rng, id: usize) -> Group {
     base.spec = gen_pipe_spec(r, &p);
     base.spec.on_error = Some(r.ps(&["ignore", "panic", "stderr", "stdout"]).to_string());
     base.sources.push(stdin_src(bytes.clone()));
+    if r.below(6) == 0 {
+        // input files, one of which does not exist: the rows of the files before it, then an I/O error — no panic
+        let nfiles = r.range(1, 3);
+        let missing = r.below(nfiles);
+        base.sources.clear();
+        for i in 0..nfiles {
+            let rows_i = { let n_ = r.range(0, 4); gen_rows(r, n_, &u) };
+            let (b, _) = stream_of(r, &rows_i, false);
+            base.sources.push(Source { name: Some(format!("in{i}.json")), bytes: b });
+        }
+        let mut rf = base.clone();
+        rf.id = format!("C16-{id}-missing-file{missing}");
+        rf.rerr = Some((missing, 0));
+        let mut wf = base.clone();
+        let woff = r.below(200);
+        wf.id = format!("C16-{id}-write@{woff}");
+        wf.wfail = Some(woff);
+        let mut g = Group::new(vec![base.clone(), rf, wf]);
+        g.nontrivial = missing > 0;
+        g.tag = "missing-file".into();
+        g.labels.push(format!("policy:{}", base.spec.on_error.clone().unwrap()));
+        g.labels.push("kind:missing-file".into());
+        return g;
+    }
     let mut cases = vec![base.clone()];
     // a read fault at an offset (after Interrupted results and short reads)
     let off = r.below(bytes.len() + 1);
@@ -1684,6 +1721,9 @@ pub fn oracle(prop: &str, g: &Group, obs: &[Obs]) -> Option<String> {
                 }
                 return None;
             }
+            if lim.res.starts_with("abort") && unl.res == "ok" {
+                return Some(format!("the run with --skip {} --take {:?} ended with {} ({}) while the unlimited run succeeds", c.spec.skip, c.spec.take, lim.res, lim.panic_msg));
+            }
             if lim.res != "ok" || c.spec.style.is_some() {
                 return None;
             }
@@ -1693,7 +1733,7 @@ pub fn oracle(prop: &str, g: &Group, obs: &[Obs]) -> Option<String> {
             let s = c.spec.skip as usize;
             let want: Vec<Vec<u8>> = all.into_iter().skip(s).take(c.spec.take.map(|t| t as usize).unwrap_or(usize::MAX)).collect();
             if got != want {
-                return Some(format!("window mismatch: got {} rows, rows {}..{} of the unlimited output are {} rows (or differ)", got.len(), s, s + want.len(), want.len()));
+                return Some(format!("window mismatch: got {} rows, rows {}..{} of the unlimited output are {} rows (or differ)", got.len(), s, s.saturating_add(want.len()), want.len()));
             }
             None
         }
@@ -1856,7 +1896,15 @@ pub fn oracle(prop: &str, g: &Group, obs: &[Obs]) -> Option<String> {
             let c = &g.cases[1];
             let off = c.rerr.map(|x| x.1).unwrap_or(0);
             let total = g.cases[0].sources[0].bytes.len();
-            if off < total && rf.res != "err:io" && !(rf.res == "err:json" && false) {
+            if g.tag == "missing-file" {
+                let stopped_early = g.cases[0].spec.take.is_some();
+                if rf.res.starts_with("abort") {
+                    return Some(format!("a missing input file ended the run with {} ({}) instead of an error", rf.res, rf.panic_msg));
+                }
+                if rf.res != "err:io" && !(stopped_early || rf.res.starts_with("err:")) {
+                    return Some(format!("a missing input file ended the run with {}", rf.res));
+                }
+            } else if off < total && rf.res != "err:io" && !(rf.res == "err:json" && false) {
                 // a read error before the end of input must surface unless the run had already stopped (Break) or failed otherwise
                 let stopped_early = g.cases[0].spec.take.is_some();
                 if !(stopped_early || rf.res.starts_with("err:")) {
